@@ -404,6 +404,20 @@ def work_cxx(job: Tuple[Any, bool]) -> Dict[str, Any]:
             if closed_at is None or rest:
                 res["violations"].append({"what": f"{res['case']}: the include guard of {b.main}_bp.h is closed before the end of the file; after it come {rest[:3]}", "payload": {"kind": "schema", "files": case.proto.files(), "main": case.proto.fname(), "lang": "c"},
                                           "confirmed": True, "info": {"kind": "cxx", "key": "cxx-guard-not-last"}})
+            # the generated sources compile as C (declared before use, no duplicate definitions); with -O also for a -F subset
+            from ..common import REPO as _REPO
+
+            builds = [("", b)]
+            if opt and case.top():
+                builds.append((" -F " + case.top()[0].name, CBuild(case, sc.dir, optimize=True, flt=[case.top()[0].name], tag="_F")))
+            for tag, bb in builds:
+                res["obligations"] += 1
+                g = run(["gcc", "-fsyntax-only", "-std=c99", "-Werror=implicit-function-declaration", "-I", bb.gen, "-I", os.path.join(_REPO, "lib", "c")] + bb.cfiles(), timeout=120)
+                if g.returncode != 0:
+                    err = next((l for l in g.stderr.split("\n") if "error" in l), g.stderr[-200:])
+                    res["violations"].append({"what": f"{res['case']}{tag}: gcc rejects the generated C: {err.strip()[:220]}", "payload": {"kind": "schema", "files": case.proto.files(), "main": case.proto.fname(), "lang": "c", "optimize": opt},
+                                              "confirmed": True, "info": {"kind": "cxx", "key": "c-rejected"}})
+                    return res
             kc = b.layout_consts(case.messages, cxx=False)
             try:
                 kx = b.layout_consts(case.messages, cxx=True)
